@@ -47,6 +47,7 @@ pub struct Machine {
     /// events taken so far / hold the shared storage during the next poll (Script::busy_storage_mask)
     pub took: usize,
     pub hold_storage_next: bool,
+    pub hold_app_set_next: bool,
 }
 
 pub fn state_view(s: &State) -> StateView {
@@ -204,7 +205,7 @@ impl Machine {
                 }
             }
         }
-        Machine { w: w.clone(), stream: Some(stream), ctl, root: Arc::new(Wk(AtomicUsize::new(1))), polled_at: 0, ended: false, polls: 0, storage, app_set, took: 0, hold_storage_next: false }
+        Machine { w: w.clone(), stream: Some(stream), ctl, root: Arc::new(Wk(AtomicUsize::new(1))), polled_at: 0, ended: false, polls: 0, storage, app_set, took: 0, hold_storage_next: false, hold_app_set_next: false }
     }
 
     pub fn woken(&self) -> bool {
@@ -221,6 +222,16 @@ impl Machine {
             let g = shared_storage.try_lock();
             if g.is_some() {
                 lock(&self.w).log.push(Op::EmbedderHoldsStorage);
+            }
+            g
+        } else {
+            None
+        };
+        let shared_apps = self.app_set.clone();
+        let _embedder_apps_guard = if std::mem::take(&mut self.hold_app_set_next) {
+            let g = shared_apps.try_lock();
+            if g.is_some() {
+                lock(&self.w).log.push(Op::EmbedderHoldsAppSet);
             }
             g
         } else {
@@ -247,8 +258,11 @@ impl Machine {
                     g.log.push(Op::Took(v.clone()));
                     // the generator is now suspended inside this emission until the consumer polls again: an embedder
                     // that locks the shared app set or storage between two polls must not find them locked
-                    if self.app_set.try_lock().is_none() {
+                    if _embedder_apps_guard.is_none() && self.app_set.try_lock().is_none() {
                         g.log.push(Op::LockHeldAtEmission { which: "app set" });
+                    }
+                    if (g.script.busy_app_set_mask >> (self.took % 32)) & 1 == 1 {
+                        self.hold_app_set_next = true;
                     }
                     if _embedder_guard.is_none() && self.storage.try_lock().is_none() {
                         g.log.push(Op::LockHeldAtEmission { which: "storage" });
